@@ -12,7 +12,7 @@ from .c08 import SeededRS
 PROPERTY = "C12"
 LEVEL = "exploration"
 RULE = ("parameter counts 1..6 (Halton ..12), boxes with lower bound in +-[0,1e6] and width 1e-2..1e9 (>= 1e-9*|bound| "
-        "so that strata/levels are distinguishable), N=1..40 (Halton ..200; grid k=2..6 with k^d<=4096), seeds through "
+        "so that strata/levels are distinguishable), N=1..40 (Halton ..200 plus base^k and base^k+-1 up to 5200; grid k=2..6 with k^d<=4096), seeds through "
         "a RandomState shim; LHS: sorted column i-th value in stratum i; Halton: point i coordinate j == lb + "
         "radical_inverse(i, prime_j)*width with exact Fractions; Uniform: exact product of k levels; Random: N rows "
         "in bounds. Non-trivial = N>=3 and d>=2; for Halton additionally an index >= base^2 of the largest base")
@@ -32,7 +32,10 @@ def box12(draw):
 def cases(draw, kind):
     if kind == "halton":
         d = draw(st.integers(1, 12))
-        N = draw(st.integers(1, 200))
+        # digit-count boundaries of the radical inverse: N = base^k and its neighbours, for the bases in use
+        pw = sorted({b ** e + o for b in O.primes(d) for e in range(1, 14) for o in (-1, 0, 1)
+                     if 1 <= b ** e + o <= (5200 if d <= 7 else 2300)})
+        N = draw(st.one_of(st.integers(1, 200), st.integers(1, 200), st.sampled_from(pw)))
     elif kind == "uniform":
         d = draw(st.integers(1, 5))
         kmax = max(2, min(6, int(4096 ** (1.0 / d))))
@@ -86,7 +89,8 @@ def check_sampler(case):
         pr = O.primes(d)
         for i, v in enumerate(vs, start=1):
             for j, (lb, ub) in enumerate(boxes):
-                exp = lb + float(O.radical_inverse(i, pr[j])) * (ub - lb)
+                num, den = O.radical_inverse_ratio(i, pr[j])      # exact rational, one correctly rounded division
+                exp = lb + (num / den) * (ub - lb)
                 if abs(v[j] - exp) > _tol(lb, ub):
                     raise Violation(kind, "radical-inverse", "point %d coordinate %d (base %d) = %r, expected %r; box %r" % (
                         i, j, pr[j], v[j], exp, boxes[j]))
